@@ -37,3 +37,53 @@ pub assume_specification<T, E, U, F: FnOnce(T) -> Result<U, E>> [Result::<T, E>:
     ensures
         r0 is Err ==> r is Err,
         r0 is Ok ==> f.ensures((r0->Ok_0,), r);
+
+// ---- tokio's UnixListener as the accept loop sees it (`pub use tokio::net::UnixListener` in stream/unix.rs) ----
+// Prophecy form as in prelude/tcpinfo.rs: `accept_outcome()` of the listener AFTER the call is what that call answered.
+#[verifier::external_type_specification]
+#[verifier::external_body]
+pub struct ExContext<'a>(std::task::Context<'a>);
+
+#[verifier::reject_recursive_types(T)]
+#[verifier::external_type_specification]
+pub struct ExPoll<T>(std::task::Poll<T>);
+
+impl OsSocketAddr {
+    /// `TryInto<UnixAddr>` through `TryFrom<tokio::net::unix::SocketAddr> for UnixAddr`: may fail (non-UTF-8 path)
+    #[verifier::external_body]
+    pub fn try_into(self) -> (r: Result<UnixAddr, std::io::Error>) { unimplemented!() }
+}
+impl Default for UnixAddr {
+    /// `#[derive(Default)]`: the unnamed address
+    #[verifier::external_body]
+    fn default() -> (r: Self) { unimplemented!() }
+}
+/// `Result::unwrap_or_default` (std): total - `Err` gives `T::default()`
+pub assume_specification<T: Default, E> [Result::<T, E>::unwrap_or_default] (r0: Result<T, E>) -> (r: T)
+    ensures r0 matches Ok(v) ==> r == v;
+
+#[verifier::external_body]
+pub struct UnixListener { _p: () }
+impl UnixListener {
+    pub uninterp spec fn accept_polls(&self) -> nat;
+    pub uninterp spec fn accept_outcome(&self) -> std::task::Poll<Result<(tokio::net::UnixStream, OsSocketAddr), std::io::Error>>;
+    /// tokio::net::UnixListener::poll_accept (inherent): one OS-level accept attempt
+    #[verifier::external_body]
+    pub fn poll_accept(&mut self, cx: &mut std::task::Context<'_>) -> (r: std::task::Poll<Result<(tokio::net::UnixStream, OsSocketAddr), std::io::Error>>)
+        ensures
+            final(self).accept_polls() == old(self).accept_polls() + 1,
+            r == final(self).accept_outcome(),
+    { unimplemented!() }
+    /// R5 leaves `self.get_mut()` of `self: Pin<&mut Self>` (Self: Unpin) in place: `Pin::get_mut` is the identity
+    #[verifier::external_body]
+    pub fn get_mut(&mut self) -> (r: &mut UnixListener)
+        ensures *r == *old(self), *final(r) == *final(self),
+    { unimplemented!() }
+}
+
+/// `Poll<T>::map` (std): the closure is applied to a Ready value (through the closure's own contract)
+pub assume_specification<T, U, F: FnOnce(T) -> U> [std::task::Poll::<T>::map] (p: std::task::Poll<T>, f: F) -> (r: std::task::Poll<U>)
+    requires p matches std::task::Poll::Ready(v) ==> f.requires((v,)),
+    ensures
+        p is Pending ==> r is Pending,
+        p matches std::task::Poll::Ready(v) ==> (r matches std::task::Poll::Ready(u) && f.ensures((v,), u));
